@@ -23,7 +23,7 @@ ASSUMPTIONS = [
     "settling is restated as agreement within 1e-6 after 30 slowest time constants (only for strictly stable circuits)",
 ]
 N_CASE = {'quick': 1000, 'thorough': 12000}
-SHAPES = ['ramp-hold', 'ramp', 'triangle', 'pulse']
+SHAPES = ['ramp-hold', 'ramp', 'triangle', 'pulse', 'constant', 'step-down']     # the last two are non-zero at the very first sample
 
 
 def make_input(spec, h, t0=0.0):
@@ -52,12 +52,22 @@ def transient_case(rng, settle=None):
         elif shape == 'triangle':
             k2 = rng.randint(k1 + 2, n // 2)
             pts = [(0, 0.0), (k1, 0.0), (k2, lv), (2 * k2 - k1, 0.0), (n, 0.0)]
+        elif shape == 'constant':
+            pts = [(0, lv), (n, lv)]                       # switched on before the grid starts: u(t[0]) != 0, states still start at rest
+        elif shape == 'step-down':
+            k2 = rng.randint(k1 + 2, n // 2)
+            pts = [(0, lv), (k2, lv), (k2 + 1, 0.0), (n, 0.0)]
         else:
             k2 = rng.randint(k1 + 2, n // 2)
             pts = [(0, 0.0), (k1, 0.0), (k1 + 1, lv), (k2, lv), (k2 + 1, 0.0), (n, 0.0)]
         inputs[c['id']] = {'shape': shape, 'points': pts, 'level': lv}
     # the time axis need not start at zero: t0 is given in units of the step
-    return {'circuit': cd, 'n': n, 'inputs': inputs, 'settle': settle, 't0_steps': rng.choice([0, 0, 0, 37, 1000, 12.5])}
+    case = {'circuit': cd, 'n': n, 'inputs': inputs, 'settle': settle, 't0_steps': rng.choice([0, 0, 0, 37, 1000, 12.5])}
+    if rng.random() < 0.15:
+        # the time grid handed over as an INTEGER array (np.arange(0, N)): the circuit's time scale is chosen so that the step is 2
+        case['integer_grid'] = True
+        case['t0_steps'] = rng.choice([0, 0, 37, 1000])
+    return case
 
 
 def generate(tier, seed, shard, nshards):
@@ -105,13 +115,23 @@ def run_transient(case, ctx, prefix, want=('phi', 'V', 'I'), half=False):
         return None
     h, lam_max, lam_min_re, ev = g
     n = case['n']
+    if case.get('integer_grid'):
+        # rescale every C and L by 2/h: all natural frequencies are multiplied by h/2 and the same simulation runs with step 2
+        k = 2.0 / h
+        cd = {'components': [({**c, 'args': {**c['args'], ('C' if c['ctor'] == 'capacitor' else 'L'): c['args']['C' if c['ctor'] == 'capacitor' else 'L'] * k}}
+                              if c['ctor'] in ('capacitor', 'inductance') else c) for c in cd['components']]}
+        lam_max, lam_min_re, ev, h = lam_max / k, lam_min_re / k, (ev / k if ev is not None else ev), 2.0
     circ = call(circdesc.to_lib, cd)
     if raised(circ):
         ctx.violation(f'{prefix}/valid-circuit-rejected/{circ.key}', circ.text, {})
         return None
     t0 = case.get('t0_steps', 0) * h
     fns = {sid: make_input(spec, h, t0) for sid, spec in case['inputs'].items()}
-    if half:
+    if case.get('integer_grid'):
+        t0i = 2 * int(case.get('t0_steps', 0))
+        tin = (t0i + np.arange(2 * n + 1)) if half else (t0i + 2 * np.arange(n + 1))
+        assert tin.dtype.kind == 'i'
+    elif half:
         tin = t0 + np.arange(2 * n + 1) * (h / 2)
     else:
         tin = t0 + np.arange(n + 1) * h
@@ -120,7 +140,7 @@ def run_transient(case, ctx, prefix, want=('phi', 'V', 'I'), half=False):
         ctx.violation(f'{prefix}/simulation-raised/{sol.key}', f'TransientSolution raised {sol.text}', {'order_class': order_class(cd)})
         return None
     lam_abs_min = float(np.min(np.abs(ev))) if ev is not None and len(ev) else lam_max
-    out = {'t': None, 'phi': {}, 'V': {}, 'I': {}, 'P': {}, 'h': h, 'lam_max': lam_max, 'lam_min_re': lam_min_re, 'fns': fns, 'tin': tin,
+    out = {'t': None, 'phi': {}, 'V': {}, 'I': {}, 'P': {}, 'cd': cd, 'h': h, 'lam_max': lam_max, 'lam_min_re': lam_min_re, 'fns': fns, 'tin': tin,
            'stiffness': lam_max / max(lam_abs_min, 1e-300)}
     comps = [c for c in cd['components'] if c['ctor'] != 'ground']
     rs = [c['args']['R'] if c['ctor'] == 'resistor' else 1 / c['args']['G'] for c in comps if c['ctor'] in ('resistor', 'conductance')] or [1.0]
@@ -158,6 +178,11 @@ def judge(case, ctx, prefix='C12'):
     o1 = run_transient(case, ctx, prefix)
     if o1 is None:
         return
+    cd = o1['cd']                                  # the circuit actually simulated (time-scaled for the integer-grid stratum)
+    if case.get('integer_grid'):
+        ctx.count('simulations_integer_time_grid')
+    if any(spec['points'][0][1] != 0 for spec in case['inputs'].values()):
+        ctx.count('simulations_input_nonzero_at_first_sample')
     comps = [c for c in cd['components'] if c['ctor'] != 'ground']
     nodes = circdesc.nodes({'components': comps})
     oc = order_class(cd)
@@ -182,10 +207,13 @@ def judge(case, ctx, prefix='C12'):
     if np.max(np.abs(o1['t'] - o1['tin'])) > 1e-9 * max(1e-300, float(o1['tin'][-1])):
         ctx.violation(f'{prefix}/time-axis', 'returned time axis differs from the requested grid', {})
     # (1) rest start
+    rest_tol = 1e-9 if any(spec['points'][0][1] != 0 for spec in case['inputs'].values()) else 0.0
     for c in comps:
-        if c['ctor'] == 'capacitor' and o1['V'][c['id']][0] != 0:
+        # exactly zero while every input is zero at the first sample; with an input already on, the (rounded) feed-through row of a
+        # state output may contribute rounding noise
+        if c['ctor'] == 'capacitor' and abs(o1['V'][c['id']][0]) > rest_tol * sig_v:
             ctx.violation(f'{prefix}/rest-start/capacitor', f'capacitor {c["id"]!r} starts at {o1["V"][c["id"]][0]!r} V', {})
-        if c['ctor'] == 'inductance' and o1['I'][c['id']][0] != 0:
+        if c['ctor'] == 'inductance' and abs(o1['I'][c['id']][0]) > rest_tol * sig_i:
             ctx.violation(f'{prefix}/rest-start/inductor', f'inductor {c["id"]!r} starts at {o1["I"][c["id"]][0]!r} A', {})
     # (2) KCL at every node at every sample (ideal sources and passives: passive sign convention)
     scale_i = max(sig_i, 1e-300)
@@ -293,7 +321,7 @@ def guards(m, tier):
     r = []
     q = tier == 'quick'
     for k, need in (('simulations', 400), ('simulations_hostile-order', 100), ('grid_refinement_checked', 400), ('element_dynamics_checked', 500),
-                    ('companion_reference_compared', 80), ('settling_checked', 15)):
+                    ('companion_reference_compared', 80), ('settling_checked', 15), ('simulations_integer_time_grid', 30), ('simulations_input_nonzero_at_first_sample', 60)):
         need = need if q else need * 12
         if c.get(k, 0) < need:
             r.append(f'{k} = {c.get(k, 0)} (<{need})')
